@@ -56,6 +56,9 @@ TARGETS = [
     ("nd_text_range", "cstree/src/syntax/node.rs", "SyntaxNode", None, "text_range"),
     ("it_new", "cstree/src/syntax/iter.rs", "Iter", None, "new"),
     ("it_next", "cstree/src/syntax/iter.rs", "Iter", "Iterator", "next"),
+    ("ec_new", "cstree/src/syntax/iter.rs", "SyntaxElementChildren", None, "new"),
+    ("ec_next", "cstree/src/syntax/iter.rs", "SyntaxElementChildren", "Iterator", "next"),
+    ("nc_new", "cstree/src/syntax/iter.rs", "SyntaxNodeChildren", None, "new"),
     ("n_clone", "cstree/src/syntax/node.rs", "SyntaxNode", "Clone", "clone"),
     ("n_drop", "cstree/src/syntax/node.rs", "SyntaxNode", "Drop", "drop"),
     ("n_try_write", "cstree/src/syntax/node.rs", "SyntaxNode", None, "try_write"),
